@@ -19,6 +19,7 @@ RULE = (
     "ones, unchanged (client identity prefixed by ROUTER on the way in, stripped on the way out), in order; the capture "
     "got one copy of each; replies reach the client named in their envelope only."
     " Family frame-size: requests and replies whose frames have the boundary sizes of the ZMTP frame header (0, 1, 254, 255, 256, 257, 65535, 65536 bytes) go through the proxy chain; the bytes on the other side's wire are the RFC encoding of the same frames."
+    " chain-reconnect variants: the client's first connection ends with an ERROR (a frame the decoder rejects, a reset) or cleanly, noticed by the proxy (`-seen`) or not, before the client comes back under the same identity: its next request is forwarded and the reply returns on the new connection."
 )
 ASSUMPTIONS = ["when a send blocks while both sides are ready, which direction is half-done is select!'s random choice: such schedules are not compared"]
 TRUSTED = ["futures::select! picks among READY branches only and drops the losing futures"]
@@ -106,8 +107,14 @@ def reconnect_case(variant, shape, n):
     sc.add(f"poll {f}", "wire 11")
     sc.reveal_msg(11, [b"c1", b"", b"r1"] + shape)
     sc.add(f"poll {f}", "wire 1")
-    if variant == "eof":
+    if variant.startswith("eof"):
         sc.add("eof 1")
+    if variant.startswith("protoerr"):
+        sc.add(f"reveal 1 {wg.hx(bytes([4, 1, 0]))}")       # a frame the decoder rejects: the connection ends with an ERROR
+    if variant.startswith("rderr"):
+        sc.add("rderr 1 ConnectionReset")
+    if variant.endswith("-seen"):
+        sc.add(f"poll {f}", f"poll {f}")                      # the proxy has noticed and forgotten the old connection
     sc.add(f"reveal 5 {wg.hx(wg.G + zmtp.ready('REQ', b'c1'))}", f"poll {g}", "wire 5")
     sc.reveal_msg(5, [b"", b"q2"] + shape)
     sc.add(f"poll {f}", "wire 11")
@@ -182,7 +189,7 @@ def cases(tier, rng):
     for variant in ("never-had-a-worker", "worker-gone"):
         out.append(no_worker_case(variant, 980000 + n))
         n += 1
-    for variant in ("open", "eof"):
+    for variant in ("open", "eof", "eof-seen", "protoerr-seen", "protoerr", "rderr-seen", "rderr"):
         for shape in SHAPES:
             out.append(reconnect_case(variant, shape, n))
             n += 1
